@@ -102,6 +102,13 @@ fn gen_sweep_session(seed: u64, run: u64) -> Session {
                 }
                 ops.push(p);
                 ops.push(PlannedOp::new(Op::ProbeText { uri: uri.clone() }));
+                ops.push(PlannedOp::new(Op::Request {
+                    id: 1000 + ops.len() as i64,
+                    method: "glas/syntaxTree".into(),
+                    uri: uri.clone(),
+                    pos: [0, 0],
+                    extra: json!({}),
+                }));
             }
         }
     }
@@ -219,6 +226,14 @@ pub fn gen_session(seed: u64, run: u64, thorough: bool) -> Session {
         }
         ops.push(p);
         ops.push(PlannedOp::new(Op::ProbeText { uri: doc_uri(d) }));
+        // what the analysis sees, not only what the document store holds
+        ops.push(PlannedOp::new(Op::Request {
+            id: 1000 + ops.len() as i64,
+            method: "glas/syntaxTree".into(),
+            uri: doc_uri(d),
+            pos: [0, 0],
+            extra: json!({}),
+        }));
     }
     for d in 0..ndocs {
         ops.push(PlannedOp::new(Op::Request {
@@ -249,6 +264,81 @@ pub fn gen_session(seed: u64, run: u64, thorough: bool) -> Session {
     }
 }
 
+/// Undo Rust's `{:?}` escaping of a string.
+fn unescape_debug(s: &str) -> Option<String> {
+    let mut out = String::new();
+    let mut it = s.chars();
+    while let Some(c) = it.next() {
+        if c != '\\' {
+            out.push(c);
+            continue;
+        }
+        match it.next()? {
+            'n' => out.push('\n'),
+            'r' => out.push('\r'),
+            't' => out.push('\t'),
+            '0' => out.push('\0'),
+            '\\' => out.push('\\'),
+            '"' => out.push('"'),
+            '\'' => out.push('\''),
+            'u' => {
+                if it.next()? != '{' {
+                    return None;
+                }
+                let mut hex = String::new();
+                loop {
+                    let h = it.next()?;
+                    if h == '}' {
+                        break;
+                    }
+                    hex.push(h);
+                }
+                out.push(char::from_u32(u32::from_str_radix(&hex, 16).ok()?)?);
+            }
+            _ => return None,
+        }
+    }
+    Some(out)
+}
+
+/// Compare the text the server ANALYSES - as far as a `glas/syntaxTree` dump shows it - with
+/// `want`. Token lines look like `    IDENT@7..8 "a"`; node lines carry no text. rowan shortens
+/// the text of tokens of 25 bytes or more to a prefix followed by " ...", so for those only the
+/// prefix and the span can be compared. Returns a description of the first difference.
+pub fn tree_differs_from(dump: &str, want: &str) -> Option<String> {
+    let first = dump.lines().next().unwrap_or("");
+    let end = first.rsplit("..").next().and_then(|n| n.trim().parse::<usize>().ok());
+    if end != Some(want.len()) {
+        return Some(format!("root `{first}` does not span the {} bytes of the text", want.len()));
+    }
+    let mut covered = 0usize;
+    for line in dump.lines() {
+        let Some(at) = line.find('@') else { continue };
+        let rest = &line[at + 1..];
+        let Some(q) = rest.find(" \"") else { continue };
+        let span = &rest[..q];
+        let Some((a, b)) = span.split_once("..") else { continue };
+        let (Ok(a), Ok(b)) = (a.parse::<usize>(), b.parse::<usize>()) else { continue };
+        let quoted = &rest[q + 2..];
+        let Some(endq) = quoted.rfind('"') else { return Some(format!("unreadable token line `{line}`")) };
+        let Some(text) = unescape_debug(&quoted[..endq]) else { return Some(format!("unreadable token text in `{line}`")) };
+        if a != covered || b > want.len() || !want.is_char_boundary(a) || !want.is_char_boundary(b) {
+            return Some(format!("token `{}` does not continue at byte {covered} of the text", line.trim()));
+        }
+        let expected = &want[a..b];
+        let ok = text == expected
+            || (expected.len() >= 25 && text.ends_with(" ...") && expected.starts_with(&text[..text.len() - 4]));
+        if !ok {
+            return Some(format!("token `{}` but the text has {:?} at {a}..{b}", line.trim(), expected));
+        }
+        covered = b;
+    }
+    if covered != want.len() {
+        return Some(format!("tokens cover {covered} of {} bytes", want.len()));
+    }
+    None
+}
+
 #[derive(Default)]
 pub struct Stats {
     pub probes_checked: u64,
@@ -268,6 +358,7 @@ pub fn check(s: &Session, h: &History, stats: &mut Stats) -> Option<Violation> {
     let mut last_tags: BTreeMap<String, Vec<String>> = BTreeMap::new();
     let mut kinds_seen: Vec<String> = Vec::new();
     // operations take effect in stream order; probes are evaluated at quiescence after them
+    let resp = h.responses();
     let mut probe_results: BTreeMap<usize, Option<String>> = BTreeMap::new();
     for e in &h.events {
         if let Ev::Probe { op, text, .. } = e {
@@ -302,6 +393,25 @@ pub fn check(s: &Session, h: &History, stats: &mut Stats) -> Option<Violation> {
                     }
                 }
             }
+            Op::Request { id, method, uri, .. } if method == "glas/syntaxTree" => {
+                let Some(m) = models.get(uri) else { continue };
+                let Some(r) = resp.get(id).and_then(|v| v.first()) else { continue };
+                let Some(tree) = r.get("result").and_then(|t| t.as_str()) else { continue };
+                stats.syntax_tree_crosschecks += 1;
+                let want = m.normalized();
+                if let Some(diff) = tree_differs_from(tree, &want) {
+                    let mut kinds = last_tags.get(uri).cloned().unwrap_or_default();
+                    kinds.sort();
+                    return Some(Violation {
+                        oracle: "analysed_text_tracks_editor".into(),
+                        kinds,
+                        detail: format!(
+                            "after operation {i} the syntax tree of {uri} is not that of the editor's text {:?} (CR removed: {:?}): {diff}",
+                            m.text, want
+                        ),
+                    });
+                }
+            }
             Op::ProbeText { uri } => {
                 let Some(got) = probe_results.get(&i) else { continue };
                 let Some(m) = models.get(uri) else { continue };
@@ -324,10 +434,9 @@ pub fn check(s: &Session, h: &History, stats: &mut Stats) -> Option<Violation> {
         }
     }
     // cross-check without the accessor: the syntax tree spans exactly the text
-    let resp = h.responses();
     for p in &s.ops {
         if let Op::Request { id, method, uri, .. } = &p.op {
-            if method != "glas/syntaxTree" {
+            if method != "glas/syntaxTree" || *id >= 1000 {
                 continue;
             }
             let Some(m) = models.get(uri) else { continue };
